@@ -309,12 +309,14 @@ Proof.
   unfold try_restarted. destruct (get s u) as [a|]; [|intros H; inversion H; subst; apply bal_refl].
   destruct (a_children a); [|intros H; inversion H; subst; apply bal_refl].
   destruct (a_st a); try (intros H; inversion H; subst; apply bal_refl).
+  destruct (provide s (a_tok a)) as [s0 inst] eqn:Ep.
+  assert (H0 : pending s0 = pending s) by (change s0 with (fst (s0, inst)); rewrite <- Ep; reflexivity).
+  intros H. cut (bal s0 s' o 0); [unfold bal; rewrite H0; trivial|]. revert H.
   apply bind_bal.
   - intros s1 o1 p1 E. apply handle_life_bal in E; [exact E|intros n; discriminate].
   - intros s1 s2 o2 p2. apply bind_bal.
     + intros s3 o3 p3 E. apply handle_life_bal in E; [exact E|intros n; discriminate].
-    + intros s3 s4 o4 p4. destruct (provide s3 (a_tok a)) as [s5 inst] eqn:Ep.
-      assert (H5 : pending s5 = pending s3) by (change s5 with (fst (s5, inst)); rewrite <- Ep; reflexivity).
+    + intros s3 s4 o4 p4.
       intros H. apply start_instance_bal in H. unfold bal in *.
       rewrite deliver_sys_pending in H. rewrite pending_upd_actor in H by keep. lia.
 Qed.
